@@ -58,8 +58,8 @@ Hstartread(int32 file_id, uint16 tag, uint16 ref)
     H4V_ND(int, hstartread_fails);
     H4V_CHECK(g_open == 0, "Hstartread: no aid is open yet");
     H4V_CHECK(file_id == g_file && g_fopen == 1, "Hstartread: in the open file");
-    if (tag != g_tag || ref != g_ref)
-        return FAIL; /* no such element: the caller asked for the wrong one */
+    if (tag != g_tag || (ref != g_ref && ref != DFREF_WILDCARD))
+        return FAIL; /* no such element: the caller asked for the wrong one (a wildcard ref finds the first = the modelled one) */
     if (hstartread_fails) {
         g_hfail = 1;
         return FAIL;
@@ -157,6 +157,28 @@ Hread(int32 access_id, int32 length, void *data)
 #endif
     g_posn += n;
     return n;
+}
+
+/* hfile.c Hnextread(aid, tag, DFREF_WILDCARD, DF_CURRENT): moves the aid to the next element of the tag, if there is one
+   (ghost: g_has_next / g_next_ref / g_next_stored, chosen by the harness) */
+static int    g_has_next;
+static uint16 g_next_ref;
+static int32  g_next_stored;
+static uint16 g_read_ref; /* ref of the element the aid was on when Hread was called last */
+static int    g_nnext;
+int
+Hnextread(int32 access_id, uint16 tag, uint16 ref, int origin)
+{
+    H4V_CHECK(access_id == H4V_AID && g_open == 1, "Hnextread: on the open aid");
+    H4V_CHECK(tag == g_tag && ref == DFREF_WILDCARD && origin == DF_CURRENT, "Hnextread: the next element of the same tag");
+    g_nnext++;
+    if (!g_has_next)
+        return FAIL; /* there is no further element: not a failure of the layer */
+    g_ref      = g_next_ref;
+    g_stored   = g_next_stored;
+    g_posn     = 0;
+    g_has_next = 0;
+    return SUCCEED;
 }
 
 int
@@ -406,4 +428,68 @@ h_DFANIgetannlen_ok(void)
     H4V_COVER(l_r == FAIL, "getannlen fail");
     H4V_COVER(l_r != FAIL && l_type == DFAN_DESC, "getannlen description");
     H4V_CANARY("DFANIgetannlen (ok) end");
+}
+
+
+/* ------------------------------------------------------------------------------------------
+ * DFANIgetfann: the single-file interface's enumeration of file labels / file descriptions.  Two cursors (Next_label_ref,
+ * Next_desc_ref), one per kind: reading an annotation of one kind moves ONLY that kind's cursor -- to the ref of the next
+ * annotation of the kind, or past the last one -- so that interleaved listings of labels and descriptions do not disturb
+ * each other (C11: listing returns exactly the annotations that exist).
+ * A-MAXLEN: the caller's buffer has room for the terminator (maxlen >= 1).
+ * ------------------------------------------------------------------------------------------ */
+int32 DFANIgetfann(int32 file_id, char *ann, int32 maxlen, int type, int isfirst)
+    __CPROVER_requires(maxlen >= 1 && __CPROVER_is_fresh(ann, (size_t)maxlen))
+    __CPROVER_requires(file_id == g_file && g_fopen == 1 && g_open == 0 && g_hfail == 0 && g_endfail == 0 && g_nnext == 0)
+    __CPROVER_requires(g_stored >= 0 && g_tag == (type == DFAN_LABEL ? DFTAG_FID : DFTAG_FD))
+    __CPROVER_assigns(type == DFAN_LABEL: Next_label_ref; type != DFAN_LABEL: Next_desc_ref;
+                      __CPROVER_object_upto(ann, (size_t)maxlen), Lastref, library_terminate, g_open, g_nstart, g_posn, g_ref, g_stored, g_has_next, g_nnext, g_hfail, g_endfail, g_zero_req, g_read_ref)
+    __CPROVER_ensures(__CPROVER_return_value == FAIL || (__CPROVER_return_value >= 0 && __CPROVER_return_value <= maxlen - 1))
+    __CPROVER_ensures(__CPROVER_return_value != FAIL ==> ann[__CPROVER_return_value] == 0)
+    /* every access id is closed again */
+    __CPROVER_ensures(g_open == 0)
+    /* the cursor of THIS kind: the next annotation of the kind, or one past the last */
+    __CPROVER_ensures((__CPROVER_return_value != FAIL && type == DFAN_LABEL) ==>
+                      Next_label_ref == (g_nnext == 1 && g_ref != g_read_ref ? g_ref : (uint16)(__CPROVER_old(Next_label_ref) + 1)))
+    __CPROVER_ensures((__CPROVER_return_value != FAIL && type != DFAN_LABEL) ==>
+                      Next_desc_ref == (g_nnext == 1 && g_ref != g_read_ref ? g_ref : (uint16)(__CPROVER_old(Next_desc_ref) + 1)))
+    __CPROVER_ensures(__CPROVER_return_value != FAIL ==> Lastref == g_read_ref);
+
+void
+h_DFANIgetfann(void)
+{
+    H4V_HAVOC(int32, g_file);
+    H4V_HAVOC(int32, g_stored);
+    H4V_HAVOC(uint16, g_ref);
+    H4V_ND(int, type);
+    H4V_ND(int, isfirst);
+    H4V_ND(int32, maxlen);
+    H4V_ND(int, has_next);
+    H4V_ND(uint16, next_ref);
+    H4V_ND(int32, next_stored);
+    H4V_ND(uint16, cur_l);
+    H4V_ND(uint16, cur_d);
+    H4V_ASSUME(g_stored >= 0 && next_stored >= 0 && maxlen >= 1 && g_ref != 0 && next_ref != 0 && next_ref != g_ref);
+    g_tag         = (uint16)(type == DFAN_LABEL ? DFTAG_FID : DFTAG_FD);
+    g_fopen       = 1;
+    g_open        = 0;
+    g_hfail = g_endfail = g_nnext = g_zero_req = g_nstart = 0;
+    g_has_next    = has_next != 0;
+    g_next_ref    = next_ref;
+    g_next_stored = next_stored;
+    g_read_ref    = g_ref; /* the modelled element is the one a first / cursor read lands on */
+    g_k = g_o = g_t = -1;
+    g_annbuf      = NULL;
+    g_elem        = NULL;
+    Next_label_ref = cur_l;
+    Next_desc_ref  = cur_d;
+    /* a non-first read continues at the cursor: the modelled element is the one the cursor names */
+    H4V_ASSUME(isfirst == 1 || g_ref == (type == DFAN_LABEL ? cur_l : cur_d));
+    char *ann = malloc((size_t)maxlen);
+    H4V_ASSUME(ann != NULL);
+    int32 r = DFANIgetfann(g_file, ann, maxlen, type, isfirst);
+    H4V_COVER(r != FAIL && type == DFAN_LABEL && has_next, "getfann: label with a successor");
+    H4V_COVER(r != FAIL && type != DFAN_LABEL && !has_next, "getfann: last description");
+    H4V_COVER(r == FAIL && g_hfail, "getfann: a layer fails");
+    H4V_CANARY("DFANIgetfann end");
 }
